@@ -72,9 +72,10 @@ func classifyHs(e *hsEnd, own, peer crypto.PubKey) string {
 }
 
 // handshake runs MakeSecretConnection on both ends against the man in the middle's strategy.
-func handshake(toA, toB, authA, authB string, rng *rand.Rand) hsOut {
+func handshake(toA, toB, authA, authB string, rng *rand.Rand, seg int) hsOut {
 	a := &hsEnd{end: p2putil.NewEnd()}
 	b := &hsEnd{end: p2putil.NewEnd()}
+	a.end.Seg, b.end.Seg = seg, seg
 	done := make(chan struct{}, 2)
 	run := func(e *hsEnd, k crypto.PrivKeyEd25519) {
 		e.panic, e.stack = mbt.Catch(func() { e.sc, e.err = p2p.MakeSecretConnection(e.end, k) })
@@ -278,20 +279,44 @@ type scSession struct {
 	rng     *rand.Rand
 }
 
-func newSession(seed uint64) (*scSession, string) {
+// newSession: an untouched handshake over a carrier that hands over at most seg bytes per Read (0: no limit).
+// The second result is "" on success, "timeout", or a description; the third says whether the failure is owed to
+// the fragmentation (the same handshake succeeds when the carrier delivers whole writes).
+func newSession(seed uint64, seg int) (*scSession, string, bool) {
 	rng := rand.New(rand.NewSource(int64(seed)))
-	hs := handshake("eB", "eA", "relay", "relay", rng)
+	hs := handshake("eB", "eA", "relay", "relay", rng, seg)
 	if hs.timeout {
-		return nil, "timeout"
+		return nil, "timeout", false
 	}
 	if hs.a.res != "ok:peer" || hs.b.res != "ok:peer" {
-		return nil, fmt.Sprintf("untouched handshake failed: A=%s(%v) B=%s(%v)", hs.a.res, hs.a.err, hs.b.res, hs.b.err)
+		msg := fmt.Sprintf("untouched handshake failed (carrier delivers at most %d bytes per Read; 0 = unlimited): A=%s(%v) B=%s(%v)", seg, hs.a.res, hs.a.err, hs.b.res, hs.b.err)
+		if seg > 0 {
+			h2 := handshake("eB", "eA", "relay", "relay", rng, 0)
+			if !h2.timeout && h2.a.res == "ok:peer" && h2.b.res == "ok:peer" {
+				return nil, msg + "; the same handshake succeeds when the carrier hands over every write whole", true
+			}
+		}
+		return nil, msg, false
 	}
 	s := &scSession{w: hs.a.sc, r: hs.b.sc, wEnd: hs.a.end, rEnd: hs.b.end, m: &mitm{}, stream: p2putil.NewStream(seed), rng: rng}
 	// the reader now pulls sealed frames from the man in the middle; nothing blocks any more
 	s.rEnd.Reader = s.m
 	s.wEnd.Out.Take()
-	return s, ""
+	return s, "", false
+}
+
+func (s *scSession) setSeg(k int) { s.wEnd.Seg, s.rEnd.Seg = k, k }
+
+// sessionFailure reports why no session could be established.
+func sessionFailure(t *tctx, si int, msg string, frag bool) {
+	switch {
+	case msg == "timeout":
+		t.fail(si, "timeout", false, "timeout:handshake", "untouched handshake timed out", nil, nil)
+	case frag:
+		t.fail(si, "property", true, "StreamIntegrity:fragmented-carrier", msg, "ok:peer", msg)
+	default:
+		t.fail(si, "mismatch", true, "Handshake:untouched-failed", msg, "ok:peer", msg)
+	}
 }
 
 // write performs Write(sz) on the real writer and hands the sealed frames to the man in the middle.
@@ -424,42 +449,45 @@ func runSecretConn(t *tctx) {
 	var s *scSession
 	delivered := 0
 	tampered := false
+	// the carrier fragments from the start (cfg.seg0, chosen by the engine from the seed) and whenever the behaviour says so
+	seg := cfgInt(t.tr, "seg0", 0)
 	for si, st := range t.tr.Steps {
 		t.rep.steps(1)
 		if s == nil && si == 0 && st.A != "Handshake" {
 			// behaviours of the stream phase alone start right after an untouched handshake
 			var msg string
-			s, msg = newSession(seed)
+			var frag bool
+			s, msg, frag = newSession(seed, seg)
 			if s == nil {
-				if msg == "timeout" {
-					t.fail(si, "timeout", false, "timeout:handshake", "untouched handshake timed out", nil, nil)
-				} else {
-					t.fail(si, "mismatch", true, "Handshake:untouched-failed", msg, "ok:peer", msg)
-				}
+				sessionFailure(t, si, msg, frag)
 				return
 			}
 		}
 		switch {
+		case st.A == "Resegment":
+			seg = mbt.Int(st.Args[0])
+			if s != nil {
+				s.setSeg(seg)
+			}
+			t.rep.distinct("sc_cases", fmt.Sprintf("Resegment/%d/%v", seg, s != nil))
 		case st.A == "Handshake":
 			toA, toB := mbt.Str(st.Args[0]), mbt.Str(st.Args[1])
 			authA, authB := mbt.Str(st.Args[2]), mbt.Str(st.Args[3])
 			wantA, wantB := mbt.Str(st.Args[4]), mbt.Str(st.Args[5])
 			if toA == "eB" && toB == "eA" && authA == "relay" && authB == "relay" {
 				var msg string
-				s, msg = newSession(seed)
+				var frag bool
+				s, msg, frag = newSession(seed, seg)
 				t.rep.checks(2)
 				if s == nil {
-					if msg == "timeout" {
-						t.fail(si, "timeout", false, "timeout:handshake", "untouched handshake timed out", nil, nil)
-					} else {
-						t.fail(si, "mismatch", true, "Handshake:untouched-failed", msg, "ok:peer", msg)
-					}
+					sessionFailure(t, si, msg, frag)
 					return
 				}
+				t.rep.distinct("sc_cases", fmt.Sprintf("Handshake/seg%d", seg))
 				t.rep.distinct("hs_strategies", "eB/eA/relay/relay")
 				continue
 			}
-			hs := handshake(toA, toB, authA, authB, rng)
+			hs := handshake(toA, toB, authA, authB, rng, seg)
 			if hs.timeout {
 				t.fail(si, "timeout", false, "timeout:handshake", "handshake with the man in the middle timed out", nil, nil)
 				return
@@ -556,7 +584,7 @@ func runSecretConn(t *tctx) {
 		}
 	}
 	if s != nil {
-		consumerPass(t, seed)
+		consumerPass(t, seed, cfgInt(t.tr, "seg0", 0))
 	}
 }
 
@@ -618,7 +646,13 @@ func (s *scSession) readStep(t *tctx, si, b int, wantR string, wantN int, delive
 	if got != wantR {
 		switch {
 		case wantR == "ok":
-			t.fail(si, "mismatch", true, "Read-error-on-genuine", fmt.Sprintf("Read failed (%v) where the next genuine frame / leftover was due", err), wantR, got)
+			// honest bytes were due: the receiver does not obtain the stream the sender wrote
+			key := "Read-error-on-genuine"
+			if !tampered && s.rEnd.Seg > 0 {
+				key = "StreamIntegrity:fragmented-carrier"
+			}
+			t.fail(si, "mismatch", true, key, fmt.Sprintf("Read failed (%v) where the next genuine frame / leftover was due; man in the middle acted before: %v; carrier delivers at most %d bytes per Read (0 = unlimited)",
+				err, tampered, s.rEnd.Seg), wantR, got)
 		case got == "ok":
 			t.fail(si, "mismatch", true, "Tamper-accepted", "Read succeeded on a frame that is not the next genuine frame", wantR, got)
 		default:
@@ -637,14 +671,10 @@ func (s *scSession) readStep(t *tctx, si, b int, wantR string, wantN int, delive
 // consumerPass: the same writes and man-in-the-middle actions, consumed the way a normal reader does
 // (io.ReadFull with the behaviour's buffer sizes).  The oracle here is not the specification: it knows the
 // written stream, the chunk length of every frame and which frames on the wire are untouched and in order.
-func consumerPass(t *tctx, seed uint64) {
-	s, msg := newSession(seed ^ 0xc0ffee)
+func consumerPass(t *tctx, seed uint64, seg int) {
+	s, msg, frag := newSession(seed^0xc0ffee, seg)
 	if s == nil {
-		if msg == "timeout" {
-			t.fail(-1, "timeout", false, "timeout:handshake", "untouched handshake timed out (consumer pass)", nil, nil)
-		} else {
-			t.fail(-1, "mismatch", true, "Handshake:untouched-failed", msg, nil, nil)
-		}
+		sessionFailure(t, -1, msg+" (consumer pass)", frag)
 		return
 	}
 	opened, openedBytes, delivered := 0, 0, 0
@@ -677,8 +707,11 @@ func consumerPass(t *tctx, seed uint64) {
 			if err == p2putil.ErrWouldBlock {
 				key = "Consumer:lost-bytes"
 			}
+			if !touched && s.rEnd.Seg > 0 {
+				key = "StreamIntegrity:fragmented-carrier"
+			}
 			t.fail(si, "property", true, key,
-				fmt.Sprintf("io.ReadFull(%d bytes) with %d untouched in-order bytes available returned (%d, %v)", m, m, n, err), m, n)
+				fmt.Sprintf("io.ReadFull(%d bytes) with %d untouched in-order bytes available returned (%d, %v); carrier delivers at most %d bytes per Read (0 = unlimited)", m, m, n, err, s.rEnd.Seg), m, n)
 			return false
 		}
 		if !bytes.Equal(buf, s.stream.Range(delivered, m)) {
@@ -695,6 +728,9 @@ func consumerPass(t *tctx, seed uint64) {
 	for si, st := range t.tr.Steps {
 		switch {
 		case st.A == "Handshake":
+		case st.A == "Resegment":
+			seg = mbt.Int(st.Args[0])
+			s.setSeg(seg)
 		case st.A == "Write":
 			sz := mbt.Int(st.Args[0])
 			n, err, _, _ := s.write(sz)
